@@ -16,6 +16,7 @@ def run(rep):
     rep.guard(m4, rep, w)
     rep.guard(m4b, rep, w)
     rep.guard(m5, rep, w)
+    rep.guard(m6, rep, w)
     rep.guard(c08.x9, rep, w)     # the active module is re-read from the frame whenever the frame list changes (unwinding out of another module)
     rep.guard(c08.x7, rep, w)     # an ImportError that was delivered to a handler must not be followed by further pushes in the import handler
 
@@ -261,3 +262,63 @@ def m5(rep, w):
     readers = sorted({callee_name(t) for _, t in ib.calls() if callee_name(t) in (VM + 'global', VM + 'module')})
     r.check(not readers, 'init_built_in_globals takes nothing from other modules', 'init_built_in_globals reads %s: a new module\'s built-ins then depend on what some other module (main) has '
             'bound under those names' % readers, ib.loc())
+
+
+def m6(rep, w):
+    """each module sees the built-ins: the main module has, besides what init_built_in_globals gives every module, the classes core.yl
+    defined there when the interpreter was created. The interpreter itself says which of main's globals are core classes -- the names
+    CoreClassStore::new_with_built_ins reads back from module "main". Each of them has to be handed to every new module too, under the
+    same name and as the same class."""
+    r = rep.rule('M6', 'every core class the interpreter takes from main\'s globals is exported to each new module by init_built_in_globals, under the same name', floor=10)
+    STORE = 'yarel::class_store::CoreClassStore'
+    nb = w.require_fn(STORE + '::new_with_built_ins', 'C14')
+    org = origins(nb)
+    taken = {}     # block of the Vm::global call -> name
+    for bi, t in nb.calls():
+        if callee_name(t) == VM + 'global' and len(t['args']) >= 3:
+            mods = nb.operand_strings(org, t['args'][1])
+            names = nb.operand_strings(org, t['args'][2])
+            if len(names) != 1:
+                raise Broken('C14', 'anchor', 'new_with_built_ins: a core class is looked up under a name that is not a constant')
+            taken[bi] = (sorted(names)[0].strip('"'), sorted(mods))
+    if len(taken) < 3:
+        raise Broken('C14', 'floor', 'new_with_built_ins reads %d globals of main' % len(taken))
+    # which field of the store each name ends up in
+    field_name = {}
+    for b in nb.blocks:
+        for s_ in b['s']:
+            rr = s_.get('r', {})
+            if rr.get('rv') == 'agg' and rr.get('adt') == STORE:
+                for fn_, o in zip(rr.get('fn') or [], rr['ops']):
+                    pl = op_place(o)
+                    for q in (org.get(pl['l'], ()) if pl else ()):
+                        if q[0][0] == 'call' and q[0][2] == VM + 'global' and q[0][1] in taken:
+                            field_name[fn_] = taken[q[0][1]][0]
+    if len(field_name) != len(taken):
+        raise Broken('C14', 'anchor', 'new_with_built_ins: %d names read from main but %d fields of the class store filled from them' % (len(taken), len(field_name)))
+    # accessor -> field
+    acc = {}
+    for p_, g in w.fns.items():
+        if p_.startswith(STORE + '::') and g.argc == 1:
+            fl = {e.get('n') for b in g.blocks for s_ in b['s'] for e in ((s_.get('r', {}).get('p') or {}).get('p') or []) if isinstance(e, dict) and 'n' in e}
+            fl &= set(field_name)
+            if len(fl) == 1:
+                acc[p_] = sorted(fl)[0]
+    ib = w.require_fn(VM + 'init_built_in_globals', 'C14')
+    iorg = origins(ib)
+    exported = {}      # name -> set of store accessors the exported value comes from
+    for bi, t in ib.calls():
+        if callee_name(t) in (VM + 'set_global', VM + 'define_native') and len(t['args']) >= 4:
+            for nm in ib.operand_strings(iorg, t['args'][2]):
+                pl = op_place(t['args'][3])
+                srcs = {q[0][2] for q in (iorg.get(pl['l'], ()) if pl else ()) if q[0][0] == 'call'}
+                exported.setdefault(nm.strip('"'), set()).update(srcs)
+    if len(exported) < 15:
+        raise Broken('C14', 'floor', 'init_built_in_globals: only %d exported names recognised' % len(exported))
+    for fld, nm in sorted(field_name.items(), key=lambda x: x[1]):
+        a = sorted(p_ for p_, f_ in acc.items() if f_ == fld)
+        if not r.check(nm in exported, 'built-in %s is exported to every module' % nm, 'the core class `%s` is a global of module "main" only: init_built_in_globals does not hand it to new modules, '
+                       'so code in an imported module gets a NameError for a built-in the main script can use' % nm, ib.loc()):
+            continue
+        r.check(bool(a) and bool(exported[nm] & set(a)), 'built-in %s is exported as the class the store holds under that name' % nm,
+                '`%s` is exported from %s, not from the class-store entry filled from main\'s `%s` (%s)' % (nm, sorted(x.rsplit('::', 1)[-1] for x in exported[nm]), nm, [x.rsplit('::', 1)[-1] for x in a]), ib.loc())
